@@ -240,6 +240,8 @@ type expect struct {
 	b    bool
 	// within1: the result is the quotient rounded to a whole nanosecond (integer arithmetic): |n - q| < 1 exactly
 	within1 bool
+	// nearest: the float result must be the float64 nearest to q (correctly rounded)
+	nearest bool
 }
 
 func bigOf(v Val) *big.Int {
@@ -328,7 +330,11 @@ func table(op string, x, y Val) expect {
 			if y.N == 0 {
 				return reject
 			}
-			return expect{mode: "value", kind: "float", q: new(big.Rat).SetFrac(bigOf(x), bigOf(y))}
+			// both nanosecond counts below 2^53 are exact floats, so their float quotient is the correctly rounded ratio
+			e := expect{mode: "value", kind: "float", q: new(big.Rat).SetFrac(bigOf(x), bigOf(y))}
+			lim := new(big.Int).Lsh(big.NewInt(1), 53)
+			e.nearest = bigOf(x).CmpAbs(lim) < 0 && bigOf(y).CmpAbs(lim) < 0
+			return e
 		case "int":
 			i := bigOf(y)
 			if i.Sign() == 0 {
@@ -445,6 +451,12 @@ func (e expect) matches(got starlark.Value) error {
 		}
 		if math.IsNaN(float64(f)) || math.IsInf(float64(f), 0) {
 			return fmt.Errorf("got %v, want about %s", f, e.q.FloatString(6))
+		}
+		if e.nearest {
+			if want, _ := e.q.Float64(); float64(f) != want {
+				return fmt.Errorf("got %v, want %v (the correctly rounded quotient of two exactly representable nanosecond counts)", f, want)
+			}
+			break
 		}
 		diff := new(big.Rat).Sub(new(big.Rat).SetFloat64(float64(f)), e.q)
 		diff.Abs(diff)
